@@ -97,13 +97,20 @@ structure Head where
   location : Bool
   retryAfter : Bool
   garbage : Bool := false -- not an HTTP status line (`BadStatusLine`)
+  chunked : Bool := false -- `Transfer-Encoding: chunked` (and then no `Content-Length`)
 deriving Repr, DecidableEq
 
-/-- one byte on the wire: a byte of a response head (the last one carries the parsed head) or a
-body byte -/
+/-- a framing byte of a chunked body: the hex digit of a chunk-size line (chunk sizes are below 16:
+one digit, which carries the parsed size), `\r`, `\n`, a byte of a trailer field -/
+inductive Fr | size (n : Nat) | cr | lf | tr
+deriving Repr, DecidableEq
+
+/-- one byte on the wire: a byte of a response head (the last one carries the parsed head), a
+payload byte, or a framing byte of the chunked coding -/
 inductive Cell
   | hd (t : Tag) (fin : Option Head)
   | body (t : Tag) (v : Nat)
+  | fr (t : Tag) (k : Fr)
 deriving Repr, DecidableEq
 
 /-- what a read finds once everything sent has been consumed -/
@@ -125,15 +132,61 @@ structure Attempt where
   stray : List Nat := []           -- unsolicited bytes sent right after
   after : After := .silent
   seg : Nat := 0                   -- max bytes per `recv` on a socket opened by this attempt (0 = unlimited)
+  sizes : List Nat := []           -- chunked reply: the chunk sizes the body is cut into
+  trailers : List Nat := []        -- chunked reply: the lengths of the trailer fields
+  hold : Nat := 0                  -- the server holds back the last `hold` bytes of what follows the head and
+                                   -- delivers them when the next request arrives on the connection
 deriving Repr
 
-/-- the server's reaction to the arrival of request `rid` -/
+/-- one chunk: `<size>\r\n<data>\r\n` -/
+def oneChunk (t : Tag) (d : List Nat) : List Cell :=
+  [Cell.fr t (.size d.length), Cell.fr t .cr, Cell.fr t .lf] ++ d.map (Cell.body t) ++ [Cell.fr t .cr, Cell.fr t .lf]
+
+/-- the chunks of payload `body` cut according to `sizes` (what is left over is one more chunk) -/
+def chunkCells (t : Tag) : List Nat → List Nat → List Cell
+  | _, [] => []
+  | [], b :: bs => oneChunk t (b :: bs)
+  | n :: ns, b :: bs =>
+    if n = 0 then chunkCells t ns (b :: bs)
+    else oneChunk t ((b :: bs).take n) ++ chunkCells t ns ((b :: bs).drop n)
+
+/-- the last-chunk line `0\r\n` -/
+def lastChunk (t : Tag) : List Cell := [Cell.fr t (.size 0), Cell.fr t .cr, Cell.fr t .lf]
+
+/-- the trailer section: the fields and the empty line -/
+def trailerCells (t : Tag) : List Nat → List Cell
+  | [] => [Cell.fr t .cr, Cell.fr t .lf]
+  | m :: ms => List.replicate m (Cell.fr t .tr) ++ [Cell.fr t .cr, Cell.fr t .lf] ++ trailerCells t ms
+
+/-- the message body as framed by head `h` -/
+def framedCells (rid : Nat) (a : Attempt) (h : Head) : List Cell :=
+  if h.chunked then chunkCells (.req rid) a.sizes a.body ++ lastChunk (.req rid) ++ trailerCells (.req rid) a.trailers
+  else a.body.map (Cell.body (.req rid))
+
+/-- everything the server sends after the head -/
+def postCells (rid : Nat) (a : Attempt) (h : Head) : List Cell :=
+  framedCells rid a h ++ a.stray.map (Cell.body .stray)
+
+def headCells (rid : Nat) (n : Nat) (h : Head) : List Cell :=
+  List.replicate (n - 1) (Cell.hd (.req rid) none) ++ [Cell.hd (.req rid) (some h)]
+
+/-- the server's whole reaction to request `rid` -/
 def serverCells (rid : Nat) (a : Attempt) : List Cell :=
   match a.head with
   | none => []
-  | some h =>
-    (List.replicate (a.headLen - 1) (Cell.hd (.req rid) none)) ++ [Cell.hd (.req rid) (some h)]
-      ++ a.body.map (Cell.body (.req rid)) ++ a.stray.map (Cell.body .stray)
+  | some h => headCells rid a.headLen h ++ postCells rid a h
+
+/-- … the part of it that is sent when the request arrives -/
+def serverNow (rid : Nat) (a : Attempt) : List Cell :=
+  match a.head with
+  | none => []
+  | some h => headCells rid a.headLen h ++ (postCells rid a h).take ((postCells rid a h).length - a.hold)
+
+/-- … and the tail that is held back until the next request arrives on the same connection -/
+def serverHeld (rid : Nat) (a : Attempt) : List Cell :=
+  match a.head with
+  | none => []
+  | some h => (postCells rid a h).drop ((postCells rid a h).length - a.hold)
 
 /-! ## state -/
 
@@ -141,6 +194,7 @@ structure Sock where
   inbound : List Cell := []       -- sent by the peer, not yet read from the kernel
   after : After := .silent
   seg : Nat := 0
+  held : List Cell := []          -- held back by the peer until the next request arrives
 deriving Repr
 
 inductive HttpState | idle | reqStarted | reqSent
@@ -164,6 +218,11 @@ structure Resp where
   status : Nat := 0
   delivered : List Cell := []          -- everything handed to the caller as body
   returned : Bool := false             -- handed to the caller by `urlopen`
+  chunked : Bool := false              -- `Transfer-Encoding: chunked`
+  chunkLeft : Option Nat := none       -- `HTTPResponse.chunk_left` (urllib3's own chunk parser)
+  hcLeft : Option Nat := none          -- `http.client` `chunk_left`
+  eom : Bool := false                  -- ghost: a chunk parser has read the empty line that ends the message
+  eof : Bool := false                  -- ghost: a chunk parser stopped discarding the trailer section at EOF
 deriving Repr
 
 inductive Ev | connect (k : Nat) | send (k : Nat) | recv (k : Nat) | close (k : Nat) | put (c : Option Nat)
@@ -324,7 +383,9 @@ def connRequest (s : State) (c : Nat) (rid : Nat) (a : Attempt) : State × Excep
       | some e => (s, .error e)
       | none =>
         let s := logEv s (.send k)
-        (setSock s k fun sk => { sk with inbound := sk.inbound ++ serverCells rid a, after := a.after }, .ok k)
+        -- the server reacts: what it held back of the previous reply, then the part of the new reply it sends at once
+        (setSock s k fun sk => { sk with inbound := sk.inbound ++ (sk.held ++ serverNow rid a), held := serverHeld rid a,
+                                         after := a.after }, .ok k)
 
 /-- the exceptions `_make_request` swallows around `conn.request` -/
 def sendSwallowed (e : Exc) : Bool :=
@@ -368,6 +429,30 @@ def findHead : List Cell → Nat → Option (Nat × Head)
   | .hd _ (some h) :: _, i => some (i + 1, h)
   | .hd _ none :: t, i => findHead t (i + 1)
   | .body _ _ :: _, i => some (i + 1, garbageHead)
+  | .fr _ _ :: _, i => some (i + 1, garbageHead)
+
+/-- is this byte a `\n`?  (the last byte of a head is one) -/
+def isEol : Cell → Bool
+  | .hd _ fin => fin.isSome
+  | .body _ v => v == 10
+  | .fr _ k => k == .lf
+
+/-- position just after the first `\n` -/
+def eolIdx : List Cell → Nat → Option Nat
+  | [], _ => none
+  | c :: t, i => if isEol c then some (i + 1) else eolIdx t (i + 1)
+
+/-- the buffer starts with a byte that is not part of a response head: `readline()` returns that line
+(once it is complete) and `_read_status` rejects it -/
+def startsGarbage : List Cell → Bool
+  | [] => false
+  | .hd _ _ :: _ => false
+  | _ :: _ => true
+
+/-- what `begin()` finds in the buffer: a complete head, a complete line that is not a status line, or
+not enough yet -/
+def scanHead (buf : List Cell) : Option (Nat × Head) :=
+  if startsGarbage buf then (eolIdx buf 0).map fun n => (n, garbageHead) else findHead buf 0
 
 inductive HeadOut | ok (h : Head) | exc (e : Exc)
 
@@ -379,7 +464,7 @@ def readHead : Nat → State → Nat → Nat → State × HeadOut
     match s.resps[r]? with
     | none => (s, .exc (exc Gen.cAttributeError))
     | some rs =>
-      match findHead rs.buf 0 with
+      match scanHead rs.buf with
       | some (n, h) =>
         let s := setResp s r fun x => { x with buf := x.buf.drop n }
         if h.garbage then (s, .exc (exc Gen.cBadStatusLine)) else (s, .ok h)
@@ -425,6 +510,114 @@ def inboundLen (s : State) (k : Nat) : Nat :=
   | none => 0
   | some sk => sk.inbound.length
 
+/-! ### chunked transfer coding: `io.BufferedReader.readline`, `http.client`'s chunk reader -/
+
+/-- `BufferedReader.readline()`: up to and including the first `\n`; at EOF what is there -/
+def fpReadline : Nat → State → Nat → Nat → List Cell → State × DataOut
+  | 0, s, _, _, _ => (s, .exc (exc Gen.cLineTooLong))
+  | fuel + 1, s, r, k, acc =>
+    match s.resps[r]? with
+    | none => (s, .data acc)
+    | some rs =>
+      match eolIdx rs.buf 0 with
+      | some n => (setResp s r fun x => { x with buf := x.buf.drop n }, .data (acc ++ rs.buf.take n))
+      | none =>
+        let s := setResp s r fun x => { x with buf := [] }
+        match recvInto s r k bufSize with
+        | (s, .got) => fpReadline fuel s r k (acc ++ rs.buf)
+        | (s, .eof) => (s, .data (acc ++ rs.buf))
+        | (s, .exc e) => (s, .exc e)
+
+/-- `int(line.split(b";")[0], 16)` of a chunk-size line (`none`: `ValueError`); a framing line is
+atomic, like a head: only the complete line `<digit>\r\n` parses -/
+def lineSize : List Cell → Option Nat
+  | [.fr _ (.size n), .fr _ .cr, .fr _ .lf] => some n
+  | _ => none
+
+/-- `line == b"\r\n"` -/
+def isBlankLine : List Cell → Bool
+  | [.fr _ .cr, .fr _ .lf] => true
+  | _ => false
+
+/-- `http.client.HTTPResponse._safe_read(n)` -/
+def safeRead (s : State) (r k n : Nat) : State × DataOut :=
+  match fpRead (inboundLen s k + 2) s r k n [] with
+  | (s, .exc e) => (s, .exc e)
+  | (s, .data d) => if d.length < n then (s, .exc (exc Gen.cHttpIncompleteRead)) else (s, .data d)
+
+def hcLeftOf (s : State) (r : Nat) : Option Nat :=
+  match s.resps[r]? with
+  | some rs => rs.hcLeft
+  | none => none
+
+/-- `_read_and_discard_trailer()`: lines up to the empty line (or EOF) -/
+def hcDiscardTrailer : Nat → State → Nat → Nat → State × Option Exc
+  | 0, s, _, _ => (s, some (exc Gen.cLineTooLong))
+  | fuel + 1, s, r, k =>
+    match fpReadline (inboundLen s k + 2) s r k [] with
+    | (s, .exc e) => (s, some e)
+    | (s, .data line) =>
+      if line.isEmpty then (setResp s r fun x => { x with eof := true }, none)
+      else if isBlankLine line then (setResp s r fun x => { x with eom := true }, none)
+      else hcDiscardTrailer fuel s r k
+
+inductive LeftOut | left (n : Option Nat) | exc (e : Exc)
+
+/-- `if chunk_left is not None: self._safe_read(2)`: the CRLF that ends the previous chunk -/
+def hcToss (s : State) (r k : Nat) (cl : Option Nat) : State × Option Exc :=
+  match cl with
+  | some _ => (match safeRead s r k 2 with
+    | (s, .exc e) => (s, some e)
+    | (s, .data _) => (s, none))
+  | none => (s, none)
+
+/-- `_get_chunk_left()` when the current chunk is used up (`chunk_left` is 0 or `None`): the CRLF of the
+previous chunk, `_read_next_chunk_size()`, and after the last chunk `_read_and_discard_trailer()` and
+`_close_conn()` -/
+def hcNext (s : State) (r k : Nat) (cl : Option Nat) : State × LeftOut :=
+  match hcToss s r k cl with
+  | (s, some e) => (s, .exc e)
+  | (s, none) =>
+    match fpReadline (inboundLen s k + 2) s r k [] with
+    | (s, .exc e) => (s, .exc e)
+    | (s, .data line) =>
+      match lineSize line with
+      | none => (closeFp s r, .exc (exc Gen.cHttpIncompleteRead))     -- `ValueError`: `_close_conn()`, `IncompleteRead(b'')`
+      | some 0 =>
+        match hcDiscardTrailer (inboundLen s k + (match s.resps[r]? with | some rs => rs.buf.length | none => 0) + 2) s r k with
+        | (s, some e) => (s, .exc e)
+        | (s, none) => (closeFp (setResp s r fun x => { x with hcLeft := none }) r, .left none)
+      | some (n + 1) => (setResp s r fun x => { x with hcLeft := some (n + 1) }, .left (some (n + 1)))
+
+/-- `_get_chunk_left()`: the bytes left in the current chunk; reads the next chunk-size line (and, after
+the last chunk, the trailer section) when the current chunk is used up; `none` = the body is over -/
+def hcGetChunkLeft (s : State) (r k : Nat) : State × LeftOut :=
+  match hcLeftOf s r with
+  | some (n + 1) => (s, .left (some (n + 1)))
+  | cl => hcNext s r k cl
+
+/-- `_read_chunked(amt)` -/
+def hcReadChunked : Nat → State → Nat → Nat → Option Nat → List Cell → State × DataOut
+  | 0, s, _, _, _, _ => (s, .exc (exc Gen.cLineTooLong))
+  | fuel + 1, s, r, k, amt, acc =>
+    match hcGetChunkLeft s r k with
+    | (s, .exc e) => (s, .exc e)
+    | (s, .left none) => (s, .data acc)
+    | (s, .left (some cl)) =>
+      -- `if amt is not None and amt <= chunk_left`
+      match (match amt with
+        | some n => if n ≤ cl then some n else none
+        | none => none) with
+      | some n =>
+        match safeRead s r k n with
+        | (s, .exc e) => (s, .exc e)
+        | (s, .data d) => (setResp s r fun x => { x with hcLeft := some (cl - n) }, .data (acc ++ d))
+      | none =>
+        match safeRead s r k cl with
+        | (s, .exc e) => (s, .exc e)
+        | (s, .data d) =>
+          hcReadChunked fuel (setResp s r fun x => { x with hcLeft := some 0 }) r k (amt.map (· - cl)) (acc ++ d)
+
 /-- `http.client.HTTPResponse.read(amt)` -/
 def httpRead (s : State) (r : Nat) (amt : Option Nat) : State × DataOut :=
   match s.resps[r]? with
@@ -434,6 +627,7 @@ def httpRead (s : State) (r : Nat) (amt : Option Nat) : State × DataOut :=
     | none => (s, .data [])
     | some k =>
       if rs.isHead then (closeFp s r, .data []) else
+      if rs.chunked then hcReadChunked (inboundLen s k + rs.buf.length + 2) s r k amt [] else
       let fuel := inboundLen s k + 2
       match amt with
       | some n =>
@@ -558,12 +752,12 @@ def respStream : Nat → State → Nat → Nat → List Cell → State × DataOu
     | (s, .exc e) => (s, .exc e)
     | (s, .data d) => respStream fuel s r n (acc ++ d)
 
-/-- `HTTPResponse.drain_conn()`: `read()` with the listed classes swallowed; the drained bytes are
-not handed to anybody -/
-def drainConn (s : State) (r : Nat) : State × Option Exc :=
-  match rawRead s r none with
-  | (s, .data _) => (s, none)
-  | (s, .exc e) => if isInst e.cls (Gen.drainConnHandlers.getD 0 []) then (s, none) else (s, some e)
+/-! ### `HTTPResponse.read_chunked` (urllib3's own chunk parser, used by `stream()`) -/
+
+def chunkLeftOf (s : State) (r : Nat) : Option Nat :=
+  match s.resps[r]? with
+  | some rs => rs.chunkLeft
+  | none => none
 
 /-- `HTTPResponse.close()` -/
 def respClose (s : State) (r : Nat) : State :=
@@ -573,6 +767,101 @@ def respClose (s : State) (r : Nat) : State :=
   | some rs => match rs.conn with
     | some c => connClose s c
     | none => s
+
+/-- `_update_chunk_length()` -/
+def updateChunkLength (s : State) (r k : Nat) : State × Option Exc :=
+  match chunkLeftOf s r with
+  | some _ => (s, none)
+  | none =>
+    match fpReadline (inboundLen s k + 2) s r k [] with
+    | (s, .exc e) => (s, some e)
+    | (s, .data line) =>
+      match lineSize line with
+      | some n => (setResp s r fun x => { x with chunkLeft := some n }, none)
+      | none =>
+        -- `self.close()`, then `InvalidChunkLength` / `ProtocolError("Response ended prematurely")`
+        (respClose s r, some (exc (if line.isEmpty then Gen.cU3ProtocolError else Gen.cU3InvalidChunkLength)))
+
+/-- `_handle_chunk(amt)` for an integer `amt` -/
+def handleChunk (s : State) (r k amt : Nat) : State × DataOut :=
+  match chunkLeftOf s r with
+  | none => (s, .data [])
+  | some cl =>
+    if amt < cl then
+      match safeRead s r k amt with
+      | (s, .exc e) => (s, .exc e)
+      | (s, .data d) => (setResp s r fun x => { x with chunkLeft := some (cl - amt) }, .data d)
+    else
+      match safeRead s r k cl with
+      | (s, .exc e) => (s, .exc e)
+      | (s, .data d) =>
+        match safeRead s r k 2 with           -- toss the CRLF at the end of the chunk
+        | (s, .exc e) => (s, .exc e)
+        | (s, .data _) => (setResp s r fun x => { x with chunkLeft := none }, .data d)
+
+/-- the `while True:` loop of `read_chunked`; every chunk yielded is recorded in `delivered` -/
+def chunkLoop : Nat → State → Nat → Nat → Nat → List Cell → State × DataOut
+  | 0, s, _, _, _, _ => (s, .exc (exc Gen.cLineTooLong))
+  | fuel + 1, s, r, k, amt, acc =>
+    match updateChunkLength s r k with
+    | (s, some e) => (s, .exc e)
+    | (s, none) =>
+      if chunkLeftOf s r == some 0 then (s, .data acc) else
+      match handleChunk s r k amt with
+      | (s, .exc e) => (s, .exc e)
+      | (s, .data d) => chunkLoop fuel (deliver s r d) r k amt (acc ++ d)
+
+/-- `while self._fp is not None: line = self._fp.fp.readline(); if not line: break; if line == b"\r\n": break` -/
+def skipTrailers : Nat → State → Nat → Nat → State × Option Exc
+  | 0, s, _, _ => (s, some (exc Gen.cLineTooLong))
+  | fuel + 1, s, r, k =>
+    match fpReadline (inboundLen s k + 2) s r k [] with
+    | (s, .exc e) => (s, some e)
+    | (s, .data line) =>
+      if line.isEmpty then (setResp s r fun x => { x with eof := true }, none)
+      else if isBlankLine line then (setResp s r fun x => { x with eom := true }, none)
+      else skipTrailers fuel s r k
+
+/-- leaving `_error_catcher` -/
+def catcherExit (s : State) (r : Nat) (out : DataOut) : State × DataOut :=
+  match out with
+  | .exc e =>
+    match errorCatcherExit s r false with
+    | (s, some e') => (s, .exc e')
+    | (s, none) => (s, .exc (translateRead e))
+  | .data d =>
+    match errorCatcherExit s r true with
+    | (s, some e') => (s, .exc e')
+    | (s, none) => (s, .data d)
+
+/-- the body of `read_chunked(amt)` inside `_error_catcher` -/
+def readChunkedBody (s : State) (r amt : Nat) : State × DataOut :=
+  match s.resps[r]? with
+  | none => (s, .data [])
+  | some rs =>
+    if rs.isHead then (closeFp s r, .data [])          -- `self._original_response.close(); return`
+    else match rs.fp with
+      | none => (s, .data [])                          -- `if self._fp.fp is None: return`
+      | some k =>
+        let fuel := inboundLen s k + rs.buf.length + 2
+        match chunkLoop fuel s r k amt [] with
+        | (s, .exc e) => (s, .exc e)
+        | (s, .data d) =>
+          match skipTrailers fuel s r k with
+          | (s, some e) => (s, .exc e)
+          | (s, none) => (closeFp s r, .data d)        -- `self._original_response.close()`
+
+/-- `b"".join(HTTPResponse.read_chunked(amt))` -/
+def readChunked (s : State) (r amt : Nat) : State × DataOut :=
+  match readChunkedBody s r amt with
+  | (s, out) => catcherExit s r out
+
+/-- `HTTPResponse.drain_conn()`: `read()` with the listed classes swallowed; the drained bytes are
+not handed to anybody -/
+def drainConn (s : State) (r : Nat) : State × Option Exc :=
+  match rawRead s r none with
+  | (s, .data _) => (s, none)
+  | (s, .exc e) => if isInst e.cls (Gen.drainConnHandlers.getD 0 []) then (s, none) else (s, some e)
 
 /-! ## `_make_request` -/
 
@@ -612,9 +901,11 @@ def getResponse (s : State) (c k rid : Nat) (rc : ReqCfg) : State × RespOut :=
       (closeFp s r, .exc e)
     | (s, .ok h) =>
       let noBody := h.status == 204 || h.status == 304 || (100 ≤ h.status && h.status < 200) || rc.isHead
-      let length : Option Nat := if noBody then some 0 else h.cl
-      let willClose := h.close || length.isNone
-      let s := setResp s r fun x => { x with length := length, status := h.status }
+      -- `if length and not self.chunked`
+      let length : Option Nat := if noBody then some 0 else if h.chunked then none else h.cl
+      -- `if not self.will_close and not self.chunked and self.length is None: self.will_close = True`
+      let willClose := h.close || (length.isNone && !h.chunked)
+      let s := setResp s r fun x => { x with length := length, status := h.status, chunked := h.chunked }
       let s := setConn s c fun x => { x with http := .idle }
       let s := if willClose then connClose s c else setConn s c fun x => { x with pending := some r }
       if rc.preload then
@@ -808,6 +1099,11 @@ def findResp (s : State) (rid : Nat) : Option Nat :=
 
 def totalInbound (s : State) : Nat := (s.socks.map (·.inbound.length)).sum
 
+def respChunked (s : State) (r : Nat) : Bool :=
+  match s.resps[r]? with
+  | some rs => rs.chunked
+  | none => false
+
 def disposeResp (s : State) (r : Nat) : How → State × DispOut
   | .readAll => match respRead s r none with
     | (s, .data d) => (s, .data d)
@@ -828,7 +1124,10 @@ def disposeResp (s : State) (r : Nat) : How → State × DispOut
     | (s, none) => (s, .unit)
   | .close => (respClose s r, .unit)
   | .drop => ((if respFpClosed s r then s else respClose s r), .unit)
-  | .stream k => match respStream (totalInbound s + (match s.resps[r]? with | some rs => rs.buf.length | none => 0) + 2) s r k [] with
+  | .stream k =>
+    -- `if self.chunked and self.supports_chunked_reads(): yield from self.read_chunked(amt)`
+    match (if respChunked s r then readChunked s r k
+      else respStream (totalInbound s + (match s.resps[r]? with | some rs => rs.buf.length | none => 0) + 2) s r k []) with
     | (s, .data d) => (s, .data d)
     | (s, .exc e) => (s, .raised e)
 
